@@ -50,6 +50,14 @@ LEAVES = ["commit_close", "commit_close", "rollback_close", "close", "close", "d
           "commit_fail_close", "commit_fail_rollback_close"]
 
 
+
+def _workdir():
+    """one directory per worker process: SQLite creates and deletes journal files all the time, and sixteen workers doing that in one
+    tmpfs directory serialise on it"""
+    d = os.path.join(_dir[0], "p%d" % os.getpid())
+    os.makedirs(d, exist_ok=True)
+    return d
+
 def setup():
     from sqlalchemy import create_engine, text, exc, event
     from sqlalchemy import pool
@@ -110,7 +118,7 @@ def derive_cases(case, res):
 def run_case(case):
     create_engine, text, exc, event, pool = _m["create_engine"], _m["text"], _m["exc"], _m["event"], _m["pool"]
     cfg = case["cfg"]
-    path = os.path.join(_dir[0], "t%d.db" % os.getpid())
+    path = os.path.join(_workdir(), "t.db")
     for suffix in ("", "-journal", "-wal", "-shm"):
         try:
             os.unlink(path + suffix)
